@@ -165,6 +165,11 @@ type Sim struct {
 	heldReq             *NLReq                              // ... this one is
 	heldReg             map[time.Duration]map[RuleKey]bool // the registrations when it was made
 	heldJudge           bool                                // this step's first tick is the held one
+	heldAt              time.Duration                       // when it was made
+	heldLastChange      time.Duration                       // end of the last step that was not a clock advance since
+	heldAmbig           bool                                // some tick fell due between the two: order of service not known
+	tmu                 sync.Mutex
+	tickers             []tickerRec // every ticker go-upf started (rule R10)
 	timerNo             atomic.Int64
 	armedAns            *Action
 	armedStop           int
@@ -224,6 +229,29 @@ func (s *Sim) logEvent(f string, a ...any) {
 		s.trace = s.trace[len(s.trace)-200:]
 	}
 	s.emu.Unlock()
+}
+
+type tickerRec struct{ at, d time.Duration }
+
+// tickDueIn: how many ticks of the tickers go-upf ever started fall due in [a, b]? (tickers
+// that were stopped since are included: the answer errs on the side of "yes").
+func (s *Sim) tickDueIn(a, b time.Duration) int {
+	s.tmu.Lock()
+	defer s.tmu.Unlock()
+	n := 0
+	for _, t := range s.tickers {
+		if t.d <= 0 || b < t.at+t.d {
+			continue
+		}
+		k := (a - t.at + t.d - 1) / t.d // first lattice point >= a
+		if k < 1 {
+			k = 1
+		}
+		if last := (b - t.at) / t.d; last >= k {
+			n += int(last-k) + 1 // every instant of this ticker inside the window
+		}
+	}
+	return n
 }
 
 // foldInstant (emu held): the events gathered for the current instant enter the chain.
@@ -442,6 +470,9 @@ func (s *Sim) settle() {
 				// whatever is queued for it (registration changes, further ticks) waits
 				s.heldReq = r
 				s.heldReg = s.model.registered()
+				s.heldAt = s.since()
+				s.heldLastChange = 0
+				s.heldAmbig = false
 				s.holdPS = false
 				s.fired("dp.hold.ps", 1)
 				s.logEvent("ps query held")
@@ -630,8 +661,12 @@ func (s *Sim) forwardReport(i int) {
 // advance moves the fake clock by d, waking up whenever go-upf needs the kernel.
 func (s *Sim) advance(d time.Duration) {
 	deadline := time.Now().Add(d)
+	held := s.heldReq != nil
 	for {
 		s.settle()
+		if !held && s.heldReq != nil {
+			break // "holdps": the clock stops where the periodic server got stuck
+		}
 		rem := time.Until(deadline)
 		if rem <= 0 {
 			break
@@ -696,6 +731,12 @@ func (s *Sim) installSeams() {
 	// transaction timers started in one instant (several requests sent in one event-loop
 	// turn) would expire in one instant: 4 ns apart instead, in the order they were started
 	// (the counter is only touched by go-upf's callers of AfterFunc: the event loop)
+	s.tickers = nil
+	simhook.SetTickerHook(func(d time.Duration) {
+		s.tmu.Lock()
+		s.tickers = append(s.tickers, tickerRec{s.since(), d})
+		s.tmu.Unlock()
+	})
 	s.timerNo.Store(0)
 	simhook.SetTimerSkew(func() time.Duration { return time.Duration(s.timerNo.Add(1)%(1<<15)) * 4 })
 	simhook.SetResolve(func(host string) (net.IP, error) {
@@ -1238,6 +1279,17 @@ func (s *Sim) releasePS() {
 	if s.heldReq == nil || s.upfDead {
 		return
 	}
+	if s.heldLastChange > 0 {
+		// one tick is the held one; any other that fell due between then and the end of the
+		// last registration change was queued somewhere in between: not judged
+		// (the query was seen a few ns after its tick fell due: one clock bump per hand-over)
+		if s.tickDueIn(s.heldAt-64, s.heldLastChange) != 1 {
+			s.heldAmbig = true
+			s.probe("holdps.ambiguous", 1)
+		} else {
+			s.probe("holdps.judged", 1)
+		}
+	}
 	s.mstep("releaseps", nil, func() {
 		r := s.heldReq
 		s.heldReq = nil
@@ -1247,6 +1299,7 @@ func (s *Sim) releasePS() {
 		s.settle()
 	})
 	s.heldJudge = false
+	s.heldAmbig = false
 	s.heldReg = nil
 }
 
